@@ -37,6 +37,7 @@ func vfC07bStage(f func()) (pan string) {
 
 var vfC07bCorpus = []string{
 	"", " ", "a", "meta.k:v", "-type:file", "-case:yes", "(-case:yes a)", "type:file", "lang:go", "b:", "meta.:",
+	"\\bhello\\b", "case:yes \\bWorld\\b", "f:\\bgo\\b", "-\\bfoo\\b bar", "sym:\\bhello\\b", "foo \\bbar\\b or \\bFOO\\b", // wordMatchTree
 	"(type:repo a) b", "x -type:repo", "-t:repo or a", "-(type:file b)", "-(case:yes B)", "type:repo a", "type:filematch a",
 	"type:file a", "(type:filematch a) b", "-(type:repo a)", "a or type:repo b", "case:yes -case:no", "sym:a type:repo",
 	"f:a case:yes or b", "()", "(a)b c", "f:", "-f:", "lang:", "archived:yes", "fork:no public:yes", "b:x", "r:", "regex:a.*b",
